@@ -1,5 +1,5 @@
 import GtfsVerif.Lemmas.RealtimeLinks
-import GtfsVerif.Props.C17
+import GtfsVerif.Props.C17Groups
 /-! # C07 — realtime entities merge order-independently into unique, sorted trips / vehicles
 
 Model: `Gtfs.Rt.parse` (Model/Realtime.lean): the extension pre-pass, the merge loop
